@@ -84,4 +84,21 @@ theorem denied_peer_believed_by_old_code :
     wrapAccept toyNetZ witPP b!"tcp" b!"[fe80::1%eth0]:1" (some b!"6.6.6.6:7777") = some ⟨b!"[fe80::1%eth0]:1", false⟩ := by
   decide
 
+/-! ### FastCGI: a field spelled with an underscore gets the CGI name of the forwarding field
+
+fastcgi.go `buildEnv` turns every request field into `HTTP_<NAME>` with '-' and ' ' replaced by '_' and
+writes them in Go map order: `X_Forwarded_For` (a valid field name net/http accepts) and the proxy's own
+`X-Forwarded-For` both become `HTTP_X_FORWARDED_FOR`, and which one the PHP application sees depends on
+the iteration order.  An untrusted client can thus make the application see a forwarding value of its
+choice.  Reproduced on the real code (both values observed); protocol line in `Driver.witnessLines`. -/
+
+/-- FULL statement (fails): for an untrusted peer the only value HTTP_X_FORWARDED_FOR can take is the
+    connection's. -/
+theorem fastcgi_forwarded_variable_full_fails :
+    ∃ (cfg : Cfg Bytes) (c : Conn) (w : List (Bytes × Bytes)) (e : FcgiEnv),
+      peerTrusted toyNet cfg c = false ∧ serveFcgi toyNet cfg c w .none = some e ∧
+      b!"6.6.6.6" ∈ e.xff ∧ remoteHost c = some b!"1.2.3.4" :=
+  ⟨{ witCfg with omitXFF := false }, witConn, [(b!"X_Forwarded_For", b!"6.6.6.6")],
+   ⟨b!"1.2.3.4", b!"80", [b!"1.2.3.4", b!"6.6.6.6"], [b!"http"], [b!"a"]⟩, by decide, by decide, by decide, by decide⟩
+
 end CaddyModel.C10
